@@ -159,6 +159,7 @@ def run(ctx):
     check_run_with_signal(ctx, prog)
     import C03_dispatch
     C03_dispatch.check(ctx, prog)
+    C03_dispatch.check(ctx, prog, 'ThreadLocalActorRuntime')     # the thread-local twin of process_message
     # what "stop() / kill() has returned" means: the request is in its one-shot port, whatever the actor's status
     import C03_request
     import C03_request_replay
